@@ -9,6 +9,7 @@ import (
 	"github.com/relex/slog-agent/base/bconfig"
 	"github.com/relex/slog-agent/orchestrate/obase"
 	"golang.org/x/exp/maps"
+	"golang.org/x/exp/slices"
 )
 
 // Config defines the configuration for ByKeySet Orchestrator
@@ -45,6 +46,11 @@ func (cfg *Config) VerifyConfig(schema base.LogSchema) ([]string, error) {
 		return nil, fmt.Errorf(".keys: %w", lerr)
 	}
 
+	for i, key := range cfg.Keys {
+		if slices.Index(cfg.Keys, key) != i {
+			return nil, fmt.Errorf(".keys[%d]: field '%s' is listed more than once", i, key)
+		}
+	}
 	if len(cfg.TagTemplate) == 0 {
 		return nil, fmt.Errorf(".tag is unspecified")
 	}
